@@ -46,7 +46,11 @@ func main() {
 func plan(tier string, seed int64) []run.Batch {
 	var bs []run.Batch
 	add := func(kind string, n int, params map[string]string) {
-		bs = append(bs, run.Batch{Kind: kind, Seed: seed*1000 + int64(len(bs)), N: n, TimeoutS: 110, Params: params})
+		to := 300 // pure function batches host no server or client (which would panic by design after 120 s)
+		if kind == "json" {
+			to = 110
+		}
+		bs = append(bs, run.Batch{Kind: kind, Seed: seed*1000 + int64(len(bs)), N: n, TimeoutS: to, Params: params})
 	}
 	q := tier != "thorough"
 	pick := func(a, b int) int {
@@ -64,15 +68,15 @@ func plan(tier string, seed int64) []run.Batch {
 	for i := 0; i < pick(4, 16); i++ {
 		add("stats", pick(25, 120), nil)
 	}
-	for i := 0; i < pick(8, 48); i++ {
-		add("crypto", pick(24, 40), nil)
+	for i := 0; i < pick(8, 64); i++ {
+		add("crypto", pick(24, 28), nil)
 	}
 	for i := 0; i < pick(3, 12); i++ {
-		add("json", pick(200, 500), nil)
+		add("json", pick(200, 300), nil)
 	}
 	// the same case list in two processes: signatures must be identical
-	bs = append(bs, run.Batch{Kind: "signdet", Seed: seed * 7919, N: pick(64, 512), TimeoutS: 110, Params: map[string]string{"proc": "a"}})
-	bs = append(bs, run.Batch{Kind: "signdet", Seed: seed * 7919, N: pick(64, 512), TimeoutS: 110, Params: map[string]string{"proc": "b"}})
+	bs = append(bs, run.Batch{Kind: "signdet", Seed: seed * 7919, N: pick(64, 512), TimeoutS: 300, Params: map[string]string{"proc": "a"}})
+	bs = append(bs, run.Batch{Kind: "signdet", Seed: seed * 7919, N: pick(64, 512), TimeoutS: 300, Params: map[string]string{"proc": "b"}})
 	return bs
 }
 
